@@ -100,6 +100,7 @@ class Project:
         self.method = False
         self.truth_ir = None
         self.stale_ir = None
+        self.alias = None  # a symlink to root through which every file is named
 
     def args(self, kinds=None):
         kinds = kinds or [k for k in KINDS if k in self.files]
@@ -119,8 +120,11 @@ class Project:
         return argv
 
 
-def make_project(rng, root, truth, prestates, method=False, rich=False, kinds=KINDS, wild=False, ir=None, stale_ir=None, with_return=False):
-    """prestates: {kind: prestate} for the non-truth kinds."""
+def make_project(rng, root, truth, prestates, method=False, rich=False, kinds=KINDS, wild=False, ir=None, stale_ir=None, with_return=False,
+                 via_symlink=False, hand_written=False):
+    """prestates: {kind: prestate} for the non-truth kinds.
+    via_symlink: every file is named through a symlink to the project directory (abspath != realpath).
+    hand_written: definitions that exist beforehand carry a comment (so re-generating them changes bytes)."""
     p = Project(root)
     p.truth, p.method = truth, method
     g = sync_ir_gen(rng, wild, with_return)
@@ -170,14 +174,26 @@ def make_project(rng, root, truth, prestates, method=False, rich=False, kinds=KI
         if (rich or state == "absent") and rng.random() < 0.3:
             lines = ['"""Module zqdoc for {}'.format(kind), "", "second zqdoc line", '"""', ""] + lines
             feats["{}_module_docstring".format(kind)] = True
+        if hand_written and state != "absent":
+            at = next((j for j, l in enumerate(lines) if l.startswith(("def " + name, "class " + name)) or l.startswith("    def " + name)), None)
+            if at is not None:
+                lines.insert(at, lines[at][: len(lines[at]) - len(lines[at].lstrip())] + "# zq hand-written comment above " + name)
         text = "\n".join(lines)
-        if rng.random() < 0.85 and not text.endswith("\n"):
-            text += "\n"
+        text = text.rstrip("\n")
+        # how the file ends: terminated, unterminated, or unterminated with trailing blanks
+        ending = rng.choice(["\n"] * 14 + ["", "", "", " ", "\t", "\n    ", "\n\n"])
+        text += ending
+        feats["{}_ending".format(kind)] = {"\n": "newline", "": "none", " ": "space", "\t": "tab", "\n    ": "blank_line_unterminated", "\n\n": "two_newlines"}[ending]
         with open(fn, "w") as f:
             f.write(text)
         feats["{}_func_before".format(kind)] = func_before
         feats["{}_no_trailing_newline".format(kind)] = not text.endswith("\n")
     feats["pre"] = {k: v for k, v in p.pre.items()}
+    feats["via_symlink"], feats["hand_written"] = via_symlink, hand_written
+    if via_symlink:
+        p.alias = root.rstrip(os.sep) + "_lnk"
+        os.symlink(root, p.alias)
+        p.files = {k: os.path.join(p.alias, os.path.basename(f)) for k, f in p.files.items()}
     p.features = feats
     return p
 
@@ -188,7 +204,7 @@ def run_api(project, kinds=None):
 
     audit = AuditLog.get()
     before = snapshot_dir(project.root)
-    audit.begin(project.root)
+    audit.begin(project.root, aliases=[project.alias] if project.alias else ())
     buf = io.StringIO()
     exc, report = None, None
     try:
